@@ -9,11 +9,11 @@ import sctrace as sc
 
 MUT_C08 = ['init-scrypt', 'init-argon', 'add-user-scrypt', 'add-user-argon', 'add-admin', 'add-user-notmp',
            'update-noaux-scrypt', 'update-noaux-argon', 'update-aux100', 'update-aux5k', 'update-aux70k-oneline',
-           'update-aux1m', 'update-aux-crlf-nonl', 'update-admin', 'update-notmp']
-QUICK_C08 = ['init-argon', 'add-user-scrypt', 'add-user-notmp', 'update-noaux-argon', 'update-aux5k', 'update-aux70k-oneline', 'update-aux-crlf-nonl', 'update-admin']
-MUT_C09 = MUT_C08 + ['setadmin-up', 'setadmin-down', 'setadmin-same', 'remove-user', 'remove-admin', 'remove-nonexistent']
+           'update-aux1m', 'update-aux-crlf-nonl', 'update-admin', 'update-notmp', 'add-user-tmp-is-file', 'update-tmp-is-file']
+QUICK_C08 = ['init-argon', 'add-user-scrypt', 'add-user-notmp', 'add-user-tmp-is-file', 'update-tmp-is-file', 'update-noaux-argon', 'update-aux5k', 'update-aux70k-oneline', 'update-aux-crlf-nonl', 'update-admin']
+MUT_C09 = [x for x in MUT_C08 if 'tmp-is-file' not in x and 'dangling' not in x] + ['setadmin-up', 'setadmin-down', 'setadmin-same', 'remove-user', 'remove-admin', 'remove-nonexistent']
 QUICK_C09 = ['init-scrypt', 'add-user-argon', 'add-admin', 'update-aux100', 'update-aux5k', 'update-aux-crlf-nonl', 'setadmin-up', 'setadmin-down', 'remove-user', 'remove-admin', 'remove-nonexistent']
-FAIL_SEM = ['add-existing', 'update-nonexistent', 'setadmin-nonexistent', 'init-nonempty']
+FAIL_SEM = ['add-existing', 'update-nonexistent', 'setadmin-nonexistent', 'init-nonempty', 'add-user-tmp-is-file', 'update-tmp-is-file', 'update-tmp-dangling-symlink']
 RO = ['ro-auth-ok', 'ro-auth-wrong', 'ro-auth-upgradeable', 'ro-auth-nonexistent', 'ro-exists', 'ro-list', 'ro-listfull', 'ro-check']
 
 BOUNDARY = {'openat', 'write', 'pwrite64', 'copy_file_range', 'fsync', 'fdatasync', 'renameat', 'renameat2', 'rename',
@@ -597,7 +597,7 @@ def readonly_scenario(st, scen):
     # make inode numbers comparable: the oracle compares run dir against itself before/after, so snapshot first
     snapdir = os.path.join(st.work, scen, 'before')
     shutil.copytree(os.path.join(rdir, 'base'), os.path.join(snapdir, 'base'), symlinks=True)
-    before = {fn: (os.stat(os.path.join(rdir, 'base', fn)).st_ino, os.stat(os.path.join(rdir, 'base', fn)).st_mtime_ns) for fn in os.listdir(os.path.join(rdir, 'base'))}
+    before = {fn: (os.lstat(os.path.join(rdir, 'base', fn)).st_ino, os.lstat(os.path.join(rdir, 'base', fn)).st_mtime_ns) for fn in os.listdir(os.path.join(rdir, 'base'))}
     t = st.traced(scen, rdir, 'ro')
     if t['bi'] is None or t['ei'] is None:
         raise RuntimeError('markers not found for ' + scen)
@@ -612,7 +612,7 @@ def readonly_scenario(st, scen):
         st.violate('c15:read-only-call-mutates:' + scen, 'a read-only call issued mutating system calls on the store: ' + '; '.join(x.raw[:160] for x in muts[:4]), scen, {'syscalls': [x.raw[:300] for x in muts[:10]]})
     st.count('syscalls_inspected', len(win))
     v = st.oracle(scen, snapdir, rdir, 'failed')
-    after = {fn: (os.stat(os.path.join(rdir, 'base', fn)).st_ino, os.stat(os.path.join(rdir, 'base', fn)).st_mtime_ns) for fn in os.listdir(os.path.join(rdir, 'base'))}
+    after = {fn: (os.lstat(os.path.join(rdir, 'base', fn)).st_ino, os.lstat(os.path.join(rdir, 'base', fn)).st_mtime_ns) for fn in os.listdir(os.path.join(rdir, 'base'))}
     changed = [fn for fn in before if fn in after and before[fn] != after[fn] and fn != '.tmp']
     if v.get('problems') or changed or set(k for k in before if k != '.tmp') != set(k for k in after if k != '.tmp'):
         st.violate('c15:%s-call-changed-store:%s' % ('read-only' if scen.startswith('ro-') else 'failed', scen),
@@ -695,6 +695,39 @@ def c03_syscall_stage(ctx):
             elif (s.err is not None) and not allowed(p) and not c.get('Valid', False) and s.err not in ('ENOENT', 'ENAMETOOLONG', 'ENOTDIR', 'EINVAL'):
                 st.count('attempted_but_failed_outside_paths')
     st.sample({'delimited_calls': nseg, 'base': base, 'example': [x.raw[:160] for x in sl if x.name in PATH_CALLS][:6]})
+    # the same path rule over single-operation scenarios with valid names, incl. an unusable work area
+    for scen in ['add-user-scrypt', 'add-user-notmp', 'update-aux100', 'update-aux5k', 'setadmin-up', 'remove-user', 'init-argon',
+                 'add-user-tmp-is-file', 'update-tmp-is-file', 'update-tmp-dangling-symlink']:
+        rdir = os.path.join(st.work, 'sc-' + scen)
+        st.prep(scen, rdir)
+        t = st.traced(scen, rdir, 'p', strsize=300)
+        if t['bi'] is None or t['ei'] is None:
+            continue
+        b2 = os.path.normpath(os.path.join(rdir, 'base'))
+
+        def allowed2(p):
+            p = os.path.normpath(p)
+            d, f = os.path.split(p)
+            if p == os.path.join(b2, '.tmp') or d == os.path.join(b2, '.tmp'):
+                return True
+            return d == b2 and bool(valid_re.match(f))
+        st.case('scenario|' + scen, True)
+        st.count('delimited_calls')
+        for x in window(t):
+            if x.name not in PATH_CALLS or x.unfinished or x.err is not None:
+                continue
+            st.count('path_syscalls_inspected')
+            strs = [y.decode('utf-8', 'surrogateescape') for y in sc.strings_of(x.args)]
+            paths = strs[:2] if x.name.startswith(('rename', 'link', 'symlink')) else strs[:1]
+            for p in paths:
+                mutating = x.name not in ('openat', 'open') or any(f in sc.STR_RE.sub('""', x.args) for f in MUT_RE)
+                credential = p.endswith('.user') or p.endswith('.admin')
+                if x.name in ('openat', 'open') and not mutating and not credential:
+                    continue
+                if p.startswith('/') and not allowed2(p):
+                    st.violate('c03:syscall-outside-allowed-paths:%s:%s' % (x.name, scen), 'during %s the process creates/modifies/opens %s' % (scen, p), 'scenario/' + scen,
+                               {'scenario': scen, 'syscall': x.raw[:400]})
+        shutil.rmtree(rdir, ignore_errors=True)
     shutil.rmtree(st.work, ignore_errors=True)
     return st.done()
 
